@@ -32,7 +32,7 @@ def Cb.carries (id : ReqId) : Cb → Bool
 theorem MOp.isCar_of_carries {op : MOp} {id : ReqId} (h : op.carries id = true) : op.isCar = true := by
   cases op <;> simp only [MOp.carries] at h <;> (try contradiction)
   all_goals (try (rename_i d m; cases m <;> simp_all [Msg.isReq, MOp.isCar]))
-  rfl
+  all_goals (try rfl)
 
 /-- no carrier operation in the list -/
 def carFree (l : List MOp) : Prop := ∀ op ∈ l, op.isCar = false
@@ -72,6 +72,10 @@ theorem carPrefix_append_cars : ∀ {x rest : List MOp}, (∀ op ∈ x, op.isCar
     simp only [List.cons_append, carPrefix, hx op List.mem_cons_self, if_true]
     exact carPrefix_append_cars (fun o ho => hx o (List.mem_cons_of_mem _ ho)) h
 
+theorem carPrefix_of_cars {x : List MOp} (h : ∀ op ∈ x, op.isCar = true) : carPrefix x := by
+  have := carPrefix_append_cars h (rest := []) trivial
+  rwa [List.append_nil] at this
+
 /-- a carrier-prefix list in front of a carrier-free list -/
 theorem carPrefix_append_free : ∀ {x rest : List MOp}, carPrefix x → carFree rest → carPrefix (x ++ rest)
   | [], _, _, h => carPrefix_of_carFree h
@@ -84,5 +88,264 @@ theorem carPrefix_append_free : ∀ {x rest : List MOp}, carPrefix x → carFree
 /-- if the head is not a carrier, nothing behind it is -/
 theorem carFree_rest_of_head {op : MOp} {rest : List MOp} (h : carPrefix (op :: rest)) (hop : op.isCar = false) : carFree rest := by
   simpa [carPrefix, hop] using h
+
+
+theorem handleReplyStep_cars {cs cs' : CtxSt} {id : ReqId} {ok : Bool} {more : List MOp} {o : Out}
+    (h : handleReplyStep cs id ok = some (cs', more, o)) : ∀ op ∈ more, op.isCar = true := by
+  unfold handleReplyStep at h
+  split at h
+  · simp only [Option.some.injEq, Prod.mk.injEq] at h; obtain ⟨rfl, rfl, rfl⟩ := h; simp
+  · split at h
+    · simp only [Option.some.injEq, Prod.mk.injEq] at h; obtain ⟨rfl, rfl, rfl⟩ := h; simp
+    · split at h
+      · simp only [Option.some.injEq, Prod.mk.injEq] at h
+        obtain ⟨-, rfl, -⟩ := h
+        simp
+      · split at h
+        · simp only [Option.some.injEq, Prod.mk.injEq] at h
+          obtain ⟨-, rfl, -⟩ := h
+          simp [MOp.isCar]
+        · simp only [Option.some.injEq, Prod.mk.injEq] at h
+          obtain ⟨-, rfl, -⟩ := h
+          simp
+
+theorem onSendFail_cars (m : Msg) : ∀ op ∈ onSendFail m, op.isCar = true := by
+  cases m <;> simp [onSendFail, MOp.isCar]
+
+theorem onSendFail_nil_of_not_req {d : Peer} {m : Msg} (h : (MOp.sendChk d m).isCar = false) : onSendFail m = [] := by
+  cases m <;> simp_all [onSendFail, MOp.isCar]
+
+theorem isCar_enq (d d' : Peer) (m : Msg) : (MOp.enq d m).isCar = (MOp.sendChk d' m).isCar := by
+  cases m <;> rfl
+
+set_option maxHeartbeats 2000000 in
+theorem microStep_carPrefix {s s' : State} {th : Th} {ch ch2 : Nat} {op : MOp} {rest : List MOp} {o : Out}
+    (hp : carPrefix (op :: rest)) (hs : microStep s th ch ch2 op rest = some (s', o)) : carPrefix (s'.prog th) := by
+  by_cases hc : op.isCar = true
+  · -- a carrier at the head: it pushes carriers only
+    have hrest : carPrefix rest := carPrefix_tail hp
+    cases op <;> simp only [MOp.isCar] at hc <;> (try contradiction) <;> simp only [microStep] at hs
+    all_goals (try (split at hs))
+    all_goals (try (split at hs))
+    all_goals (try (simp at hs))
+    all_goals (try (obtain ⟨rfl, -⟩ := hs))
+    all_goals (simp only [setProg_prog, if_true, State.setProg, upd])
+    all_goals first
+      | exact hrest
+      | exact carPrefix_append_cars (onSendFail_cars _) hrest
+      | exact carPrefix_append_cars (handleReplyStep_cars ‹handleReplyStep _ _ _ = some _›) hrest
+      | (rename_i d m _; cases m <;> simp_all [carPrefix, MOp.isCar])
+      | skip
+  · have hc' : op.isCar = false := by simpa using hc
+    have hrest : carFree rest := carFree_rest_of_head hp hc'
+    have hpr : carPrefix rest := carPrefix_of_carFree hrest
+    cases op <;> simp only [microStep] at hs
+    all_goals (try (split at hs))
+    all_goals (try (split at hs))
+    all_goals (try (split at hs))
+    all_goals (try (split at hs))
+    all_goals (try (simp at hs))
+    all_goals (try (obtain ⟨rfl, -⟩ := hs))
+    all_goals (simp only [setProg_prog, if_true, State.setProg, upd])
+    all_goals (try split)
+    all_goals first
+      | exact hpr
+      | exact trivial
+      | (have e := isCar_enq ‹Peer› ‹Peer› ‹Msg›; simp only [carPrefix, e, hc', Bool.false_eq_true, if_false]; exact hrest)
+      | (simp only [carPrefix, MOp.isCar, carFree_cons, if_true, Bool.false_eq_true, if_false]; first | exact hrest | exact ⟨rfl, hrest⟩ | exact ⟨trivial, hrest⟩ | (simp [hrest]; done))
+      | (rw [onSendFail_nil_of_not_req hc']; exact hpr)
+      | (simp only [carPrefix, isCar_enq _ _ _, hc', Bool.false_eq_true, if_false]; first | exact hrest | (rw [isCar_enq _ ‹Peer›] ; simp [hc', hrest]))
+      | exact carPrefix_append_cars (fun op ho => by simp only [List.mem_map] at ho; obtain ⟨_, -, rfl⟩ := ho; rfl) hpr
+      | (simp [carPrefix, carFree, MOp.isCar]; done)
+      | exact absurd rfl hc
+      | (have e := isCar_enq ‹Peer› ‹Peer› ‹Msg›; simp only [carPrefix, e, hc', Bool.false_eq_true, if_false]; exact hrest)
+      | skip
+
+
+theorem carFree_beginProg (c : Ctx) (t : Tid) (n : Nat) (o : Op) : carFree (beginProg c t n o) := by
+  cases o <;> simp only [beginProg] <;> (try split) <;> simp [carFree, MOp.isCar]
+
+theorem carPrefix_dispatch (src : Peer) (m : Msg) : carPrefix (dispatch src m) := by
+  cases m with
+  | subReq id ob sg b => cases b <;> simp [dispatch, carPrefix, carFree, MOp.isCar]
+  | _ => simp [dispatch, carPrefix, carFree, MOp.isCar]
+
+theorem carPrefix_nonmicro {s s' : State} {a : Act} {o : Out} (ha : ∀ th ch ch2, a ≠ .micro th ch ch2)
+    (hs : step s a = some (s', o)) (th' : Th) (hp : carPrefix (s.prog th')) : carPrefix (s'.prog th') := by
+  cases a with
+  | micro th ch ch2 => exact absurd rfl (ha th ch ch2)
+  | begin c t op =>
+    simp only [step] at hs
+    split at hs
+    · cases op <;> simp at hs <;> obtain ⟨rfl, -⟩ := hs <;> simp only [setProg_prog, State.setProg, upd] <;>
+        (split
+         · exact carPrefix_of_carFree (carFree_beginProg _ _ _ _)
+         · exact hp)
+    · simp at hs
+  | cb c ok =>
+    simp only [step] at hs
+    split at hs
+    · split at hs
+      · simp at hs
+      · split at hs
+        · simp at hs
+        · rename_i heq
+          obtain ⟨-, hpx, -, -, -, hpr⟩ := smSendStep_frame heq
+          simp only [Option.some.injEq, Prod.mk.injEq] at hs
+          obtain ⟨rfl, -⟩ := hs
+          simp only [setProg_prog, hpx, setCtx_prog]
+          split
+          · rcases hpr with e | e <;> rw [e]
+            · trivial
+            · exact carPrefix_of_cars (onSendFail_cars _)
+          · exact hp
+      · split at hs
+        all_goals
+          simp at hs; obtain ⟨rfl, -⟩ := hs
+          simp only [setProg_prog, setCtx_prog]
+          split
+          · simp [carPrefix, carFree, MOp.isCar]
+          · exact hp
+    · simp at hs
+  | arrive cn cli =>
+    simp only [step] at hs
+    split at hs
+    · split at hs
+      · simp at hs
+      · simp only [Option.some.injEq, Prod.mk.injEq] at hs
+        obtain ⟨rfl, -⟩ := hs
+        simp only [State.setProg, upd]
+        split
+        · exact carPrefix_dispatch _ _
+        · exact hp
+    · simp at hs
+  | eof cn cli =>
+    simp only [step] at hs
+    split at hs
+    · simp only [Option.some.injEq, Prod.mk.injEq] at hs
+      obtain ⟨rfl, -⟩ := hs
+      simp only [setProg_prog]
+      split
+      · simp [carPrefix, carFree, MOp.isCar]
+      · exact hp
+    · simp at hs
+  | connect a p =>
+    simp only [step] at hs
+    split at hs
+    · simp only [Option.some.injEq, Prod.mk.injEq] at hs
+      obtain ⟨rfl, -⟩ := hs
+      simpa using hp
+    · simp at hs
+  | stopReq c =>
+    simp only [step] at hs
+    split at hs
+    · simp only [Option.some.injEq, Prod.mk.injEq] at hs
+      obtain ⟨rfl, -⟩ := hs
+      simpa using hp
+    · simp at hs
+  | stop c =>
+    simp only [step] at hs
+    split at hs
+    · simp only [Option.some.injEq, Prod.mk.injEq] at hs
+      obtain ⟨rfl, -⟩ := hs
+      simpa using hp
+    · simp at hs
+
+/-- in every program the carrier operations form a prefix -/
+theorem carPrefix_reach {s : State} (h : Reach s) : ∀ th, carPrefix (s.prog th) := by
+  induction h with
+  | init => intro th; simp [State.init, carPrefix]
+  | step _ hs ih =>
+    rename_i s0 s1 a o _
+    intro th'
+    by_cases ha : ∃ th ch ch2, a = .micro th ch ch2
+    · obtain ⟨th, ch, ch2, rfl⟩ := ha
+      obtain ⟨-, op, rest, hp, hm⟩ := step_micro_inv hs
+      by_cases e : th' = th
+      · subst e; exact microStep_carPrefix (hp ▸ ih th') hm
+      · rw [(microStep_frame hm).prog_other th' e]; exact ih th'
+    · exact carPrefix_nonmicro (fun th ch ch2 e => ha ⟨th, ch, ch2, e⟩) hs th' (ih th')
+
+
+def MOp.isClose : MOp → Bool
+  | .closeConn .. => true
+  | _ => false
+
+theorem handleReplyStep_noClose {cs cs' : CtxSt} {id : ReqId} {ok : Bool} {more : List MOp} {o : Out}
+    (h : handleReplyStep cs id ok = some (cs', more, o)) : ∀ op ∈ more, op.isClose = false := by
+  intro op ho
+  have := handleReplyStep_cars h op ho
+  cases op <;> simp_all [MOp.isCar, MOp.isClose]
+
+set_option maxHeartbeats 1000000 in
+/-- a micro step never pushes a `closeConn` operation -/
+theorem microStep_noClose {s s' : State} {th : Th} {ch ch2 : Nat} {op : MOp} {rest : List MOp} {o : Out}
+    (hs : microStep s th ch ch2 op rest = some (s', o)) :
+    ∀ op' ∈ s'.prog th, op'.isClose = true → op' ∈ rest := by
+  have f1 : ∀ m, ∀ op ∈ onSendFail m, op.isClose = false := by
+    intro m op ho; cases m <;> simp_all [onSendFail, MOp.isClose]
+  cases op <;> simp only [microStep] at hs
+  all_goals (try (split at hs))
+  all_goals (try (split at hs))
+  all_goals (try (split at hs))
+  all_goals (try (split at hs))
+  all_goals (try (simp at hs))
+  all_goals (try (obtain ⟨rfl, -⟩ := hs))
+  all_goals (intro op' hm hx)
+  all_goals (simp only [setProg_prog, if_true, State.setProg, upd] at hm)
+  all_goals (try (have f2 := handleReplyStep_noClose ‹handleReplyStep _ _ _ = some _›))
+  all_goals (try (split at hm))
+  all_goals (try (simp only [List.mem_append, List.mem_cons, List.mem_map, List.not_mem_nil, or_false, false_or] at hm))
+  all_goals (try exact hm)
+  all_goals (try (grind [MOp.isClose]))
+
+/-- connections are owned by the contexts that registered them; a `closeConn` belongs to the owner's thread -/
+structure OwnInv (s : State) : Prop where
+  peers : ∀ c n cn, (s.ctx c).peers n = some cn → cn < s.nextConn ∧ ((s.conn cn).half n.isName).owner = c
+  close : ∀ th cn cli, .closeConn cn cli ∈ s.prog th → cn < s.nextConn ∧ ((s.conn cn).half cli).owner = th.ctx
+
+theorem ownInv_init : OwnInv State.init := by
+  constructor <;> simp [State.init, CtxSt.init]
+
+
+theorem handleReplyStep_peers {cs cs' : CtxSt} {id : ReqId} {ok : Bool} {more : List MOp} {o : Out}
+    (h : handleReplyStep cs id ok = some (cs', more, o)) : cs'.peers = cs.peers := (handleReplyStep_rsubs h).2.2.2
+
+set_option maxHeartbeats 1000000 in
+/-- micro steps only ever unregister peers -/
+theorem microStep_peers {s s' : State} {th : Th} {ch ch2 : Nat} {op : MOp} {rest : List MOp} {o : Out}
+    (hs : microStep s th ch ch2 op rest = some (s', o)) :
+    ∀ c n cn, (s'.ctx c).peers n = some cn → (s.ctx c).peers n = some cn := by
+  cases op <;> simp only [microStep] at hs
+  all_goals (try (split at hs))
+  all_goals (try (split at hs))
+  all_goals (try (split at hs))
+  all_goals (try (split at hs))
+  all_goals (try (simp at hs))
+  all_goals (try (obtain ⟨rfl, -⟩ := hs))
+  all_goals (intro c n cn h)
+  all_goals (simp only [setProg_ctx, setCtx_ctx, State.setProg] at h)
+  all_goals (try (split at h))
+  all_goals (try (rename_i e; subst e))
+  all_goals (try exact h)
+  all_goals (try (rw [handleReplyStep_peers ‹handleReplyStep _ _ _ = some _›] at h; exact h))
+  all_goals (try (simp only [upd, peerRemovedStep] at h; split at h <;> simp_all))
+
+theorem ownInv_micro {s s' : State} {th : Th} {ch ch2 : Nat} {op : MOp} {rest : List MOp} {o : Out}
+    (h : OwnInv s) (hprog : s.prog th = op :: rest) (hs : microStep s th ch ch2 op rest = some (s', o)) : OwnInv s' := by
+  have hf := microStep_frame hs
+  have hown := microStep_owner hs
+  constructor
+  · intro c n cn hp
+    have := h.peers c n cn (microStep_peers hs c n cn hp)
+    rw [hf.nextConn, hown]; exact this
+  · intro th' cn cli hm
+    rw [hf.nextConn, hown]
+    by_cases e : th' = th
+    · subst e
+      have := microStep_noClose hs _ hm rfl
+      exact h.close th' cn cli (by rw [hprog]; exact List.mem_cons_of_mem _ this)
+    · rw [hf.prog_other th' e] at hm
+      exact h.close th' cn cli hm
 
 end QmiModel.PubSub
